@@ -247,10 +247,18 @@ class MergeInput(symval.Node):
             self.user = {o: ctx.new("k", "int", "0 <= $ < 3") for o in OPTS}
             self.nc_user = ctx.new("k", "int", "0 <= $ < 3")
             self.s_base = self.s_user = None
+            # whether the options are set in the dialect's own class body or inherited from a parent dialect
+            self.inh_user = ctx.new("b", "bool")
+            self.inh_base = ctx.new("b", "bool")
         else:
             self.user = None
             self.s_base = [ctx.new("p", "bool") for _ in range(2)]
             self.s_user = [ctx.new("p", "bool") for _ in range(2)]
+
+    def inherited(self, env):
+        if self.what != "opts":
+            return False, False
+        return bool(env[self.inh_user]), bool(env[self.inh_base])
 
     def make(self, env):
         b = dict(BASES[pick(env[self.base], len(BASES))])
@@ -271,8 +279,15 @@ def merge_main(S, env):
         keys = (int, datetime.date)
         bs = {k: {"serialize": _ser_int, "deserialize": _de_int} for k, on in zip(keys, sb) if on}
         us = {k: {"serialize": _ser_date} for k, on in zip(keys, su) if on}
-        B = type("B", (Dialect,), dict(b, serialization_strategy=bs))
-        U = type("U", (Dialect,), dict(u, serialization_strategy=us))
+        inh_u, inh_b = S.node.inherited(env)
+        if inh_b:
+            B = type("B", (type("BParent", (Dialect,), dict(b)),), dict(serialization_strategy=bs))
+        else:
+            B = type("B", (Dialect,), dict(b, serialization_strategy=bs))
+        if inh_u:
+            U = type("U", (type("UParent", (Dialect,), dict(u)),), dict(serialization_strategy=us))
+        else:
+            U = type("U", (Dialect,), dict(u, serialization_strategy=us))
         st, M = call(B.merge, U)
         if st == "exc":
             return fail("C13/merge-raised:%s" % type(M).__name__, base=b, user=u, exc=M)
@@ -280,7 +295,7 @@ def merge_main(S, env):
             want = u[o] if u[o] is not MISSING else b[o]
             got = getattr(M, o, "<absent>")
             if got is not want and got != want:
-                return fail("C13/merge-drops-option", option=o, base=b[o], user=u[o], got=got)
+                return fail("C13/merge-drops-option", option=o, base=b[o], user=u[o], got=got, inherited=(inh_u, inh_b))
         for k in keys:
             want = dict(bs.get(k, {}))
             want.update(us.get(k, {}))
